@@ -72,6 +72,15 @@ def verify_function(c, seed=0, timeout_ms=20000, only_labels=None):
     t0 = time.time()
     S._qcount[0] = 0
     try:
+        if c.custom is not None:
+            res.func = c.name
+            res.file = c.tu
+            res.paths = 1
+            for label, kind, props, ok, detail, model in c.custom(c):
+                res.obligations.append(Obligation('%s/%s:%s' % (c.key, kind, label), kind, label, tuple(props),
+                                                  'discharged' if ok else ('unknown' if ok is None else 'failed'), model, 0.0, 0, c.name, detail))
+            res.secs = time.time() - t0
+            return res
         tu = astdb.load_tu(c.tu)
         cands = find_function(tu, c)
         if not cands:
@@ -321,6 +330,12 @@ def run_scenario(ex, fnode, c, scen):
                 ex.oblige('ensures', 'binds_' + fld, z3.BoolVal(bool(ok)), None, props=c.props_for('binds'))
             for lab, e in c.ensures:
                 ex.oblige('ensures', lab, S.spec_eval(e, env_post, ex2), None, props=c.props_for(lab))
+                if lab.startswith('hint:'):
+                    # proof hint: an intermediate assertion over the function's own variables; once it is an obligation
+                    # of its own it may be used for the clauses that follow (never exported to callers)
+                    S.MODE[0] = 'assume'
+                    ex.assume(S.spec_eval(e, env_post, ex2))
+                    S.MODE[0] = 'prove'
         else:
             for lab, e in c.ensures_exc:
                 ex.oblige('ensures_exc', lab, S.spec_eval(e, env_post, ex2), None, props=c.props_for(lab))
